@@ -77,6 +77,26 @@ def load_known() -> List[Dict[str, Any]]:
     return json.load(f)['findings']
 
 
+def unlisted(rs: RuleSet) -> List[Ob]:
+  """Failing obligations that are not listed known findings (deduplicated)."""
+  known_active = {(k['rule'], k['construct']) for k in load_known()
+                  if k['property'] == rs.prop and
+                  k.get('status', 'known') == 'known'}
+  seen, out = set(), []
+  for o in rs.obs:
+    if o.ok or o.key() in seen:
+      continue
+    seen.add(o.key())
+    if o.key() not in known_active:
+      out.append(o)
+  return out
+
+
+def vacuous(rs: RuleSet) -> List[str]:
+  return [r for r, info in rs.rules_run.items()
+          if rs.count(r) < info['min_instances']]
+
+
 def finish(rs: RuleSet, tier: str, seed: int, t0: float, analysed: Dict,
            explanation: str, assumptions: List[str],
            only: Optional[tuple] = None) -> int:
